@@ -137,6 +137,8 @@ struct Emitter {
             if (!E->isIncompleteType()) j += ",\"esz\":" + std::to_string(Ctx.getTypeSizeInChars(E).getQuantity());
         } else if (C->isFloatingType()) {
             j += ",\"flt\":" + std::to_string(Ctx.getTypeSize(C));
+        } else if (C->isVectorType() && !C->isIncompleteType()) {
+            j += ",\"vec\":true,\"sz\":" + std::to_string(Ctx.getTypeSizeInChars(C).getQuantity());
         }
         j += "}";
         int id = (int)typeTab.size();
